@@ -28,13 +28,17 @@ TRUSTED = [
     "correspondence driver harness/props/c11.py",
 ]
 ASSUMPTIONS = ["ipaddress (CPython 3.12) is the reference implementation named by the property"]
-TECHNIQUE = "Coq proof of the numeric identities over Z (network = addr AND netmask, masks, last address, numhosts) + vm_compute correspondence of real objects built through every form; textual acceptance/rejection by three-way differential test against ipaddress"
+TECHNIQUE = "Coq proof of the numeric identities over Z (network = addr AND netmask, masks, last address, numhosts) + vm_compute correspondence of real objects built through every form; Coq proofs about hand models of the IPv4 and IPv6 text parsers (accepted spellings round-trip, accepted text is in range) tied by vm_compute correspondence; remaining textual acceptance/rejection by three-way differential test against ipaddress"
 LEVEL_TEXT = ("Numeric layer proved for all (address, prefix) pairs of both families: network = addr land netmask, netmask + hostmask = 2^W-1, last = network + hostmask, "
               "bounds, numhosts, host bits kept; the derived-value methods are re-translated from /repo on every run (gen/GenOK11.v). The object -> (addr, plen) reading of every "
               "accepted textual form, and rejection of near-valid text, is tied three-way (model, implementation, ipaddress) on boundary-biased inputs and the one-edit neighbourhood. "
-              "IPv4 text: every spelling a | a/len | a/mask | a<blanks>mask | a<blanks>hostmask with surrounding blanks parses to (a, p) (v4_parse_render, all a < 2^32, p <= 32) and accepted text is always in range (v4_parse_sound).")
-LEVEL_NOTE = ("PARTIAL: the IPv6 textual layer and all string renderings are decided by differential testing against ipaddress, not by a theorem; "
-              "the numeric theorems and the IPv4 textual theorems (v4_parse_render, v4_parse_sound about the hand model coq/Model/IPText.v, tied by the v4text stream) are unbounded. Trusted: Coq kernel + vm_compute, translator, driver, ipaddress as reference.")
+              "IPv4 text: every spelling a | a/len | a/mask | a<blanks>mask | a<blanks>hostmask with surrounding blanks parses to (a, p) (v4_parse_render, all a < 2^32, p <= 32) and accepted text is always in range (v4_parse_sound). "
+              "IPv6 text: v6_parse (coq/Model/IPText6.v, a transcription of ipaddress's IPv6 parser and IPv6Obj's input handling, tied by the v6text stream) only accepts in-range values (v6_parse_sound), and every uncompressed "
+              "eight-group text, each group in any hextet spelling (minimal lower/upper case, zero padded -- spellings, an exhaustive kernel computation over all 65536 groups), with or without /len and surrounding blanks, "
+              "parses to (value_of groups, len) (v6_parse_full).")
+LEVEL_NOTE = ("PARTIAL: compressed ('::') and embedded-IPv4 IPv6 spellings and all string renderings are decided by correspondence (v6text stream) and differential testing against ipaddress, not by a theorem; "
+              "the numeric theorems, the IPv4 textual theorems (v4_parse_render, v4_parse_sound about the hand model coq/Model/IPText.v, tied by the v4text stream) and the IPv6 textual theorems "
+              "(v6_parse_sound, v6_parse_full about coq/Model/IPText6.v, tied by the v6text stream) are unbounded. Trusted: Coq kernel + vm_compute, translator, driver, ipaddress as reference.")
 
 
 def _addr_pool(W, rng):
@@ -218,8 +222,52 @@ def nt_v4text(c, o):
     return None
 
 
+def _v6_spellings(val):
+    groups = ["%x" % ((val >> (112 - 16 * i)) & 0xFFFF) for i in range(8)]
+    outs = {":".join(groups), str(ipaddress.IPv6Address(val)), ipaddress.IPv6Address(val).exploded, ":".join(groups).upper()}
+    for i in range(8):
+        for j in range(i + 1, 9):
+            if all(g == "0" for g in groups[i:j]):
+                outs.add(":".join(groups[:i]) + "::" + ":".join(groups[j:]))
+    tail = str(ipaddress.IPv4Address(val & 0xFFFFFFFF))
+    outs.add(":".join(groups[:6]) + ":" + tail)
+    if all(g == "0" for g in groups[:5]):
+        outs.add("::" + groups[5] + ":" + tail)
+    bad = {":".join(groups + ["1"]), ":".join(groups[:7]), ":".join(groups[:7]) + ":12345", ":".join(groups[:7]) + ":g",
+           "::" + ":".join(groups) if groups[0] != "0" else "1::2::3",
+           ":".join(groups[:3]) + "::" + ":".join(groups[4:6]) + "::" + groups[7], ":" + ":".join(groups[1:]), ":".join(groups[:7]) + ":",
+           ":".join(groups[:6]) + ":" + tail + ".1", ":".join(groups[:6]) + ":256.1.1.1", ":".join(groups[:6]) + ":01.1.1.1", ":".join(groups) + "%eth0"}
+    return outs, bad
+
+
+def gen_v6text(rng, tier, escalate):
+    big = tier == "thorough" or escalate
+    out = set()
+    for t in range(40 if not big else 200):
+        val = rng.choice([0, 1, (1 << 128) - 1, 0xFFFF00000000 | rng.getrandbits(32), rng.getrandbits(128), rng.getrandbits(64) << 64, rng.getrandbits(16) << 112,
+                          (0x20010DB8 << 96) | rng.getrandbits(16), rng.getrandbits(128) & ~(0xFFFFFFFF << 48), rng.getrandbits(128) & ~(0xFFFF << 16)])
+        good, bad = _v6_spellings(val)
+        for a in sorted(good) + sorted(bad):
+            for suffix in ("", "/%d" % rng.randint(0, 128), " %d" % rng.randint(0, 128), "/0", "/128", "/129", "/-1", "/6 4", "/64x", "/", "/ 64", "/064", "  12"):
+                if suffix and rng.random() < 0.65:
+                    continue
+                out.add(rng.choice(["", "", " ", "\t"]) + a + suffix + rng.choice(["", "", " "]))
+    for b in ["2001:db8::1/64", "::1", "::", "fe80::/10", "1:2:3:4:5:6:7:8/128", "::ffff:10.1.2.3/96", "2001:db8::1 64", "1:2:3:4:5:6:7::", "::2:3:4:5:6:7:8"]:
+        for s in _neighbours(b, "0123456789afAF:/. xg%", rng, 100000 if big else 120):
+            out.add(s)
+    return [{"s": s} for s in sorted(out)]
+
+
+def run_v6text(c):
+    from ciscoconfparse2.ccp_util import IPv6Obj
+    return _impl(IPv6Obj, c["s"])
+
+
 PRE = "From Coq Require Import ZArith List NArith. Import ListNotations. Require Import CCP.Corr.C11. Open Scope Z_scope."
 STREAMS = [Stream("v4text", gen_v4text, run_v4text, lit_v4text, PRE, "list N * option (Z * Z)", "agree11t", show="model11t", nontrivial=nt_v4text,
+                  describe=lambda c, o: {"text": c["s"], "impl (addr, plen)": o}),
+           Stream("v6text", gen_v6text, run_v6text, lit_v4text, PRE, "list N * option (Z * Z)", "agree11t6", show="model11t6",
+                  nontrivial=lambda c, o: (("ok", c["s"]) if o is not None else (("near-miss", c["s"]) if c["s"].count(":") >= 2 else None)),
                   describe=lambda c, o: {"text": c["s"], "impl (addr, plen)": o}),
            Stream("values", gen_values, run_values, lit_values,
                   "From Coq Require Import ZArith List. Import ListNotations. Require Import CCP.Corr.C11. Open Scope Z_scope.",
